@@ -42,6 +42,28 @@ REGION_PLUS_FACT = "factorization_event_has_plus_mark"
 REGION_F15 = "ctf_symbol_needed_at_two_values"
 
 
+def plus_value_propagated(g, items) -> bool:
+    """F13a on the ctf side: some (counterfactual) ancestor W of the event has a parent p whose value is not fixed by
+    W's own subscripts, so ctf-factor form writes '-p' -- while the event gives p the value '+'."""
+    plus_names = {it["v"] for it in items if it["val"]}
+    if not plus_names:
+        return False
+    d = set()
+    for it in items:
+        d |= ref_ctf.ancestors(g, _pair(it))
+    for name, subs in d:
+        own = {n for n, _ in subs}
+        for u, v in g["di"]:
+            if v == name and u not in own and u in plus_names:
+                return True
+    return False
+
+
+def factor_subs(g, var, items):
+    """Subscripts (name, mark) that the ctf-factor form of ``var`` carries with a value fixed by the event (its own subscripts)."""
+    return [(n, s_) for n, s_ in var[1]]
+
+
 def symbol_needed_twice(g, items) -> bool:
     """The factorisation needs one variable name at two values: two different counterfactual versions of a variable are
     among the ancestors, or a name that the event fixes as a subscript is also an ancestor that must be summed out."""
@@ -55,7 +77,32 @@ def symbol_needed_twice(g, items) -> bool:
     outcome = {it["v"] for it in items}
     summed = {v[0] for v in d} - outcome
     fixed_subs = {n for it in items for n, _ in it["do"]}
-    return bool(summed & fixed_subs)
+    if summed & fixed_subs:
+        return True
+    # the event itself uses one name at two different values (as a value and as a subscript, or in two subscripts).
+    # If the two occurrences sit in one counterfactual factor (same district of the ancestral sub-graph) the factor
+    # is inconsistent and the procedure is expected to FAIL, which needs no second symbol; only occurrences in
+    # different factors force one symbol to stand for two values.
+    from ..ref_id import G as RG
+
+    bases = {v[0] for v in d}
+    rg = RG(sorted(bases), [e for e in g["di"] if e[0] in bases and e[1] in bases], [e for e in g["bi"] if e[0] in bases and e[1] in bases])
+    dist = {}
+    for comp in rg.districts():
+        for n in comp:
+            dist[n] = comp
+    occ = {}  # name -> set of (mark, district of the variable that carries the occurrence)
+    for v in d:
+        for n, s_ in factor_subs(g, v, items):
+            occ.setdefault(n, set()).add((bool(s_), dist.get(v[0])))
+    for it in items:
+        if it["val"] is not None and it["v"] in dist:
+            occ.setdefault(it["v"], set()).add((bool(it["val"]), dist[it["v"]]))
+    for n, os_ in occ.items():
+        marks_ = {m for m, _ in os_}
+        if len(marks_) > 1 and len({dd for _, dd in os_}) > 1:
+            return True
+    return False
 
 
 
